@@ -55,6 +55,7 @@ from typing import (
 from typing_extensions import Self  # In 3.11, import this from `typing`
 
 from mpservice import multiprocessing
+from mpservice._common import StopRequested
 from mpservice._queues import SingleLane
 from mpservice.concurrent.futures import (
     ProcessPoolExecutor,
@@ -927,7 +928,7 @@ class Buffer(Iterable):
                     break
                 q.put(x)  # if `q` is full, will wait here
             q.put(FINISHED)
-        except Exception as e:
+        except (Exception, StopRequested) as e:
             q.put(STOPPED)
             q.put(e)
             # raise
@@ -1042,7 +1043,7 @@ def fifo_stream(
                 q.put((x, fut))
                 # The size of the queue `q` regulates how many
                 # concurrent calls to `func` there can be.
-        except Exception as e:
+        except (Exception, StopRequested) as e:
             q.put(e)
         else:
             q.put(None)
@@ -1062,7 +1063,7 @@ def fifo_stream(
             z = tasks.get()
             if z is None:
                 break
-            if isinstance(z, Exception):
+            if isinstance(z, (Exception, StopRequested)):
                 raise z
 
             x, fut = z
@@ -1087,7 +1088,7 @@ def fifo_stream(
             z = tasks.get()
             if z is None:
                 break
-            if isinstance(z, Exception):
+            if isinstance(z, (Exception, StopRequested)):
                 break
             _, t = z
             t.cancel()
